@@ -141,7 +141,8 @@ func (f *indexFetcher) GetFields() (immutable.Option[EncodedDocument], error) {
 	}
 	_, err = prefixFetcher.NextDoc()
 	if err != nil {
-		return immutable.Option[EncodedDocument]{}, err
+		// the prefix fetcher holds an open iterator, it must not outlive the transaction
+		return immutable.Option[EncodedDocument]{}, errors.Join(err, prefixFetcher.Close())
 	}
 	doc, err := prefixFetcher.GetFields()
 	return doc, errors.Join(err, prefixFetcher.Close())
